@@ -585,3 +585,598 @@ def check_L17(ctx, rep):
                      'the raw (possibly stale) id as key' % (name, name))
     if pairs < 1:
         raise Broken('no (f, rev_f) sibling pair with a class-id parameter found in TrRelUnionFind')
+
+
+# ------------------------------------------------------------------ L18 / L19 / L4b
+
+def _mutated_fields(cr, b, self_id, seen=None, depth=0):
+    """fields of the structure behind `self` (through one wrapper level `.0`) that a method writes: assignment targets, receivers of
+    &mut method calls (insert / entry / push / extend ..), through inherent helper methods of the crate"""
+    seen = seen or set()
+    if b['path'] in seen or depth > 3:
+        return set()
+    seen.add(b['path'])
+    out = set()
+
+    def field_of(n):
+        """first field name below the self root, skipping the tuple-wrapper field `0`"""
+        chain = []
+        n = strip(n)
+        while True:
+            n = strip(n)
+            k = n.get('k')
+            if k == 'block' and not n['ss'] and 'e' in n:
+                n = n['e']; continue
+            if k == 'field':
+                chain.append(n['n']); n = n['e']; continue
+            if k in ('addr', 'index', 'cast'):
+                n = n['e']; continue
+            if k == 'unary' and n['op'] == 'deref':
+                n = n['e']; continue
+            if k == 'mcall':
+                n = n['r']; continue
+            if k == 'path' and n.get('res') == 'local':
+                if n['id'] != self_id and n['id'] not in aliases:
+                    return None
+                base = list(aliases.get(n['id'], []))
+                names = base + [c for c in reversed(chain)]
+                names = [c for c in names if c != '0']
+                return names[0] if names else '<self>'
+            return None
+    aliases = {}
+    # `if let Some(rm) = self.0.reverse_map1.as_mut()` / `let x = &mut self.0.map` : alias -> field
+    for n, parents in walk(b['tree']):
+        pat = init = None
+        if n.get('k') == 'let' and 'i' in n:
+            pat, init = n['p'], n['i']
+        if pat is not None:
+            f = field_of(init)
+            if f and f != '<self>':
+                for bb in pat_bindings(pat):
+                    aliases[bb['id']] = [f]
+    for n, parents in walk(b['tree']):
+        k = n.get('k')
+        if k == 'assign' or k == 'assignop':
+            f = field_of(n['l'])
+            if f:
+                out.add(f)
+        if k == 'mcall':
+            rt = cr.s(n.get('rt')) or ''
+            if rt.startswith('&mut') or n['m'] in ('insert', 'push', 'extend', 'entry', 'or_default', 'or_insert_with', 'raw_entry_mut', 'add',
+                                                   'insert_with_hash_no_check', 'insert_by_ref'):
+                f = field_of(n['r'])
+                if f and n['m'] not in ('as_mut', 'as_ref', 'get', 'hasher', 'iter', 'len', 'contains', 'contains_key', 'is_some', 'is_none', 'clone'):
+                    out.add(f)
+            c = n.get('c') or {}
+            d = c.get('d')
+            if d in cr.bodies and d != b['path'] and (chain_root(n['r']) or {}).get('id') == self_id:
+                callee_b = cr.bodies[d]
+                if callee_b['params'] and callee_b['params'][0].get('k') == 'bind':
+                    out |= _mutated_fields(cr, callee_b, callee_b['params'][0]['id'], seen, depth + 1)
+    return out
+
+
+def check_L18(ctx, rep, scope):
+    """sibling writers: a write view that implements both RelIndexWrite::index_insert and RelFullIndexWrite::insert_if_not_present
+    updates the same parts of the shared structure in both (e.g. the per-key map AND both reverse maps)."""
+    cr = ctx.lib('ascent_byods_rels')
+    by_ty = {}
+    for path, b in cr.bodies.items():
+        if not b.get('impl_of') or not (path.startswith('<' + scope) or path.startswith(scope)):
+            continue
+        tr = b.get('trait_of') or ''
+        if (b['name'] == 'index_insert' and tr.endswith('RelIndexWrite')) or (b['name'] == 'insert_if_not_present' and tr.endswith('RelFullIndexWrite')):
+            by_ty.setdefault(impl_self_ty(b), {})[b['name']] = b
+    n = 0
+    for ty, d in sorted(by_ty.items()):
+        if len(d) != 2:
+            continue
+        fs = {}
+        for nm, b in d.items():
+            sid = b['params'][0]['id']
+            fs[nm] = _mutated_fields(cr, b, sid)
+            rep.functions.add(b['path'])
+        if not fs['index_insert'] and not fs['insert_if_not_present']:
+            continue
+        n += 1
+        ok = fs['index_insert'] == fs['insert_if_not_present']
+        rep.inst('L18', '%s: index_insert writes %s, insert_if_not_present writes %s: %s' % (ty, sorted(fs['index_insert']), sorted(fs['insert_if_not_present']), ok))
+        if not ok:
+            diff = fs['index_insert'] ^ fs['insert_if_not_present']
+            rep.viol('L18', d['index_insert']['path'], 'sibling-writers:' + ','.join(sorted(diff)),
+                     'the two write paths of `%s` do not update the same parts of the structure (%s only on one path): rows inserted through one '
+                     'of them are invisible to the index views built on the other part' % (ty, sorted(diff)))
+    return n
+
+
+def check_L19(ctx, rep, scope):
+    """reverse-map shift of the ternary wrappers: for each optional reverse map field, the statements of the merge move
+    delta -> total and new -> delta (abstract interpretation over the three set variables per field)."""
+    cr = ctx.lib('ascent_byods_rels')
+    n = 0
+    shifted_fields = {}
+    for path, b in sorted(cr.bodies.items()):
+        if b['name'] != MERGE or not (path.startswith('<' + scope) or path.startswith(scope)) or not b.get('impl_of'):
+            continue
+        ps = b['params']
+        role = {ps[0].get('id'): 'new', ps[1].get('id'): 'delta', ps[2].get('id'): 'total'}
+
+        def place(e):
+            e = strip(e)
+            fld = None
+            while True:
+                e = strip(e)
+                k = e.get('k')
+                if k == 'field':
+                    if e['n'] != '0':
+                        fld = e['n']
+                    e = e['e']; continue
+                if k in ('addr', 'cast'):
+                    e = e['e']; continue
+                if k == 'unary' and e['op'] == 'deref':
+                    e = e['e']; continue
+                if k == 'mcall' and e['m'] in ('as_mut', 'unwrap', 'as_ref'):
+                    e = e['r']; continue
+                if k == 'path' and e.get('res') == 'local' and e['id'] in role and fld:
+                    return (role[e['id']], fld)
+                return None
+        state = {}
+        ops = 0
+        for n_, parents in walk(b['tree']):
+            c = callee(n_)
+            if not c or n_.get('k') != 'call' or len(n_['a']) != 2:
+                continue
+            nm = cname(c)
+            a, b_ = place(n_['a'][0]), place(n_['a'][1])
+            if a is None or b_ is None or a[1] != b_[1] or 'reverse' not in a[1]:
+                continue
+            f = a[1]
+            # the step's own guard: `if <version>.<field>.is_some()` must test the field that is shifted
+            for p_ in reversed(parents):
+                if p_.get('k') == 'if':
+                    cnd = strip(p_['c'])
+                    if cnd.get('k') == 'mcall' and cnd['m'] in ('is_some', 'is_none'):
+                        g = place(cnd['r'])
+                        if g is not None and 'reverse' in g[1]:
+                            ok_g = g[1] == f
+                            rep.inst('L19', '%s: shift step of `%s` is guarded by the presence of `%s`: %s' % (path, f, g[1], ok_g))
+                            if not ok_g:
+                                rep.viol('L19', path, 'guard-field:%s-under-%s' % (f, g[1]),
+                                         'the shift of `%s` runs only when `%s` exists: with only one of the two reverse maps enabled '
+                                         'it is skipped (stale index) or unwraps a missing map' % (f, g[1]), loc=cr.loc(n_))
+                            break
+            st = state.setdefault(f, {'new': frozenset('N'), 'delta': frozenset('D'), 'total': frozenset('T')})
+            if 'move_hash_map' in nm:
+                st[b_[0]] = st[b_[0]] | st[a[0]]; st[a[0]] = frozenset(); ops += 1
+            elif nm.endswith('mem::swap'):
+                st[a[0]], st[b_[0]] = st[b_[0]], st[a[0]]; ops += 1
+        shifted_fields.setdefault(impl_self_ty(b), set()).update(state)
+        for f, st in sorted(state.items()):
+            n += 1
+            ok = st['total'] == frozenset('TD') and st['delta'] == frozenset('N') and st['new'] == frozenset()
+            rep.inst('L19', '%s: %s ends total=%s delta=%s new=%s: %s' % (path, f, ''.join(sorted(st['total'])), ''.join(sorted(st['delta'])), ''.join(sorted(st['new'])), ok))
+            rep.functions.add(path)
+            if not ok:
+                rep.viol('L19', path, 'reverse-map-shift:' + f,
+                         'after the merge `%s` holds total=%s delta=%s new=%s (expected total=T+D, delta=N, new=empty): lookups by the reversed '
+                         'columns see stale or missing keys' % (f, ''.join(sorted(st['total'])), ''.join(sorted(st['delta'])), ''.join(sorted(st['new']))))
+    # every reverse map a write view of this module fills is shifted by a merge of this module
+    written = set()
+    for path, b in sorted(cr.bodies.items()):
+        if b['name'] in ('index_insert', 'insert_if_not_present') and b.get('impl_of') and (path.startswith('<' + scope) or path.startswith(scope)):
+            written |= {f for f in _mutated_fields(cr, b, b['params'][0]['id']) if 'reverse' in f}
+    all_shifted = set().union(*shifted_fields.values()) if shifted_fields else set()
+    if written:
+        ok = written <= all_shifted
+        rep.inst('L19', '%s: reverse maps filled by the write views %s are all shifted by the merge %s: %s' % (scope, sorted(written), sorted(all_shifted), ok))
+        if not ok:
+            rep.viol('L19', scope, 'unshifted:' + ','.join(sorted(written - all_shifted)),
+                     'the write views fill %s but no merge of the module shifts it from new to delta to total' % sorted(written - all_shifted))
+    return n
+
+
+def check_L4b(ctx, rep):
+    """the `move_*_contents` helpers of the provider crate (same obligations as RelIndexMerge::move_index_contents: drain `from`
+    completely into `to` on every path; size swaps exchange from/to themselves)"""
+    import lib_rules
+    cr = ctx.lib('ascent_byods_rels')
+    n = 0
+    for path, b in sorted(cr.bodies.items()):
+        if not (b['name'].startswith('move_') and 'contents' in b['name']) or len(b['params']) != 2 or b.get('impl_of'):
+            continue
+        ps = b['params']
+        if ps[0].get('k') != 'bind' or ps[1].get('k') != 'bind':
+            continue
+        n += 1
+        rep.functions.add(path)
+        roles = {ps[0]['id']: 'FROM', ps[1]['id']: 'TO'}
+        lib_rules.propagate_roles(b['tree'], roles)
+        disjoint = 'disjoint' in b['name']       # documented precondition: the two sides share no element
+        saved = set(lib_rules.CONSUMING)
+        if disjoint:
+            lib_rules.CONSUMING |= lib_rules.UNCHECKED_INSERTS
+        try:
+            n += _l4b_one(cr, rep, path, b, roles, disjoint) - 1
+        finally:
+            lib_rules.CONSUMING.clear(); lib_rules.CONSUMING.update(saved)
+    return n
+
+
+def _l4b_one(cr, rep, path, b, roles, disjoint):
+    import lib_rules
+    if True:
+        if not disjoint:
+            for x, _ in walk(b['tree']):
+                if x.get('k') == 'mcall' and x['m'] in lib_rules.UNCHECKED_INSERTS:
+                    rep.viol('L4', path, 'unchecked-insert:' + x['m'], 'a move helper without a disjointness precondition inserts with `%s`: '
+                             'keys present on both sides end up duplicated' % x['m'], loc=cr.loc(x))
+        drained = [(x, p_) for x, p_ in walk(b['tree']) if x.get('k') == 'mcall' and x['m'] in ('drain', 'into_iter') and not x['a']
+                   and (chain_root(x['r']) or {}).get('id') in roles and roles[chain_root(x['r'])['id']] == 'FROM']
+        if not drained:
+            rep.viol('L4', path, 'no-drain', 'helper does not drain `from`')
+            return 1
+        for x, parents in drained:
+            body = None
+            for p_ in reversed(parents):
+                if p_.get('k') == 'match' and p_.get('src') == 'for':
+                    for lp, _ in walk(p_['arms'][0]['b']):
+                        if lp.get('k') == 'match' and lp.get('src') == 'for':
+                            body = [a['b'] for a in lp['arms'] if pat_bindings(a['p'])]
+                            break
+                    break
+            if not body:
+                rep.viol('L4', path, 'drain-loop', 'cannot find the loop that consumes from.drain() (unrecognised idiom)')
+                continue
+            # a nested move helper call `move_x(&mut from_part, to_part)` counts as consuming
+            def consumes(bd):
+                if lib_rules.must_consume(bd, roles, ('TO',), ('DRAINED',)):
+                    return True
+                bd0 = strip(bd)
+                arms = None
+                for y, _ in walk(bd0):
+                    if y.get('k') == 'match' and y.get('src') == 'normal':
+                        arms = y['arms']; break
+                if arms:
+                    oks = []
+                    for a in arms:
+                        ok = lib_rules.must_consume(a['b'], roles, ('TO',), ('DRAINED',))
+                        if not ok:
+                            for y, _ in walk(a['b']):
+                                c = callee(y)
+                                if c and y.get('k') == 'call' and cname(c).split('::')[-1].startswith('move_') and len(y['a']) == 2:
+                                    r0, r1 = chain_root(y['a'][0]), chain_root(y['a'][1])
+                                    if r0 is not None and r1 is not None and roles.get(r0['id']) == 'DRAINED' and roles.get(r1['id']) == 'TO':
+                                        ok = True
+                        oks.append(ok)
+                    return all(oks)
+                return False
+            ok = all(consumes(bd) for bd in body)
+            rep.inst('L4b', '%s: every drained entry reaches `to`: %s' % (path, ok))
+            if not ok:
+                rep.viol('L4', path, 'drained-entry-dropped', 'a path through the merge loop drops a drained entry instead of inserting it into `to`', loc=cr.loc(x))
+        for x, parents in walk(b['tree']):
+            c = callee(x)
+            if x.get('k') == 'call' and c and cname(c).endswith('mem::swap'):
+                ra, rb = chain_root(x['a'][0]), chain_root(x['a'][1])
+                r1 = roles.get(ra['id']) if ra is not None else None
+                r2 = roles.get(rb['id']) if rb is not None else None
+                ok = {r1, r2} in ({'FROM', 'TO'}, {'DRAINED', 'TO'})
+                rep.inst('L4b', '%s: swap(%s, %s)' % (path, r1, r2))
+                if not ok:
+                    rep.viol('L4', path, 'swap(%s,%s)' % (r1, r2), 'size-swap exchanges %s with %s' % (r1, r2), loc=cr.loc(x))
+    return 1
+
+
+# ------------------------------------------------------------------ L21
+
+def check_L21(ctx, rep, scope):
+    """operand cover of the inner semi-naive closure loop of the transitive-relation merges. The loop maintains the not-yet-joined
+    part DD of the pairs that the new rows N add to the closed total T. Its steps are calls `join(target, target_rev, rel1, rel2_rev, ..)`.
+    The accumulated set is closed under composition with T u N only if the steps cover (DD,T), (T,DD) and a linear step with the
+    generator set ((N,DD) or (DD,N)): every accumulated pair is once in DD (so it meets T on both sides) and every pair is a
+    composition of N and T pairs (so N-linear steps reach all compositions). (DD,DD) alone pairs only pairs found in the same
+    round. Operand classes are derived by dataflow: DD = the local swapped with the step's target each round, T = a part of the
+    value taken out of the `total` parameter, N = a local filled from the `new` parameter before the loop and not written in it."""
+    cr = ctx.lib('ascent_byods_rels')
+    n_loops = 0
+    for path, b in sorted(cr.bodies.items()):
+        if b['name'] != MERGE or not (('<' + scope + '::') in path or path.startswith(scope + '::')):
+            continue
+        ps = b['params']
+        roles = {ps[0].get('id'): 'N', ps[1].get('id'): 'D', ps[2].get('id'): 'T'}
+
+        def mentioned_roles(e):
+            out = set()
+            for x, _ in walk(e):
+                if x.get('k') == 'path' and x.get('res') == 'local' and x['id'] in roles:
+                    out.add(roles[x['id']])
+            return out
+        changed, guard = True, 0
+        while changed and guard < 12:
+            changed, guard = False, guard + 1
+            for n, parents in walk(b['tree']):
+                if any(p.get('k') in ('loop',) and p.get('src') == 'loop' for p in parents):
+                    continue
+                if n.get('k') == 'let' and 'i' in n:
+                    rs = mentioned_roles(n['i'])
+                    if len(rs) == 1:
+                        for bb in pat_bindings(n['p']):
+                            if bb['id'] not in roles:
+                                roles[bb['id']] = next(iter(rs)); changed = True
+                if n.get('k') == 'match':
+                    rs = mentioned_roles(n['e'])
+                    if len(rs) == 1:
+                        for a in n['arms']:
+                            for bb in pat_bindings(a['p']):
+                                if bb['id'] not in roles:
+                                    roles[bb['id']] = next(iter(rs)); changed = True
+        # locals filled inside a for-loop over an N-rooted iterable (the id-mapped copy of the new rows)
+        for n, parents in walk(b['tree']):
+            if n.get('k') == 'match' and n.get('src') == 'for' and not any(p.get('k') == 'loop' and p.get('src') == 'loop' for p in parents):
+                scr = strip(n['e'])
+                if scr.get('k') == 'call' and scr['a'] and mentioned_roles(scr['a'][0]) == {'N'}:
+                    for x, _ in walk(n['arms'][0]['b']):
+                        if x.get('k') == 'mcall' and x['m'] in ('insert', 'push', 'entry'):
+                            r = chain_root(x['r'])
+                            if r is not None and r['id'] not in roles:
+                                roles[r['id']] = 'N'
+        for lp, lparents in walk(b['tree']):
+            if lp.get('k') != 'loop' or lp.get('src') != 'loop':
+                continue
+            steps = []
+            for n, parents in walk(lp['b']):
+                if n.get('k') == 'call' and cr.ty(n) == 'bool' and len(n['a']) >= 4 and not any(p.get('k') == 'closure' for p in parents):
+                    a0, a1 = strip(n['a'][0]), strip(n['a'][1])
+                    if a0.get('k') == 'addr' and a0.get('mut') and a1.get('k') == 'addr' and a1.get('mut'):
+                        steps.append(n)
+            if not steps:
+                continue
+            n_loops += 1
+            swaps = {}
+            written = set()
+            for n, parents in walk(lp['b']):
+                c = callee(n)
+                if n.get('k') == 'call' and c and cname(c).endswith('mem::swap'):
+                    ra, rb = chain_root(n['a'][0]), chain_root(n['a'][1])
+                    if ra is not None and rb is not None:
+                        swaps[ra['id']] = rb['id']; swaps[rb['id']] = ra['id']
+                if n.get('k') == 'addr' and n.get('mut') and not any(p.get('k') == 'closure' for p in parents):
+                    r = chain_root(n['e'])
+                    if r is not None:
+                        written.add(r['id'])
+
+            def operand(e):
+                e = strip(e)
+                while True:
+                    e = strip(e)
+                    if e.get('k') == 'addr':
+                        e = e['e']; continue
+                    if e.get('k') == 'call' and (e.get('f') or {}).get('dk') == 'Ctor' and len(e['a']) == 1:
+                        e = e['a'][0]; continue
+                    break
+                r = chain_root(e)
+                return r, e
+            pairs = []
+            for s in steps:
+                tgt, tgt_rev = chain_root(s['a'][0]), chain_root(s['a'][1])
+
+                def cls(e, want_rev):
+                    r, node = operand(e)
+                    if r is None:
+                        return '?'
+                    partner = swaps.get(r['id'])
+                    if partner is not None and tgt is not None and partner == (tgt_rev if want_rev else tgt)['id']:
+                        return 'DD'
+                    if partner is not None:
+                        return 'DD?'          # swapped with something else than this step's own target: wrong companion
+                    role = roles.get(r['id'])
+                    if role == 'T' and node.get('k') == 'field':
+                        return 'T'
+                    if role == 'N' and r['id'] not in written:
+                        return 'N'
+                    return '?'
+                l, r_ = cls(s['a'][2], False), cls(s['a'][3], True)
+                pairs.append((l, r_))
+                rep.inst('L21', '%s: step %s joins (%s, %s)' % (path, (s.get('snip') or '')[:40].replace('\n', ' '), l, r_))
+            have = set(pairs)
+            need = [('DD', 'T'), ('T', 'DD')]
+            missing = [p for p in need if p not in have]
+            if ('N', 'DD') not in have and ('DD', 'N') not in have:
+                missing.append(('N', 'DD'))
+            rep.functions.add(path)
+            # the frontier starts from the new rows
+            seeded = False
+            for n, parents in walk(b['tree']):
+                if n.get('k') == 'let' and 'i' in n and not any(p is lp for p in parents):
+                    ids = [bb['id'] for bb in pat_bindings(n['p'])]
+                    if any(i in swaps for i in ids) and mentioned_roles(n['i']) == {'N'}:
+                        seeded = True
+            rep.inst('L21', '%s: closure loop with %d steps %s, frontier seeded from the new rows: %s, cover complete: %s' % (
+                path, len(steps), sorted(have), seeded, not missing))
+            if missing:
+                rep.viol('L21', path, 'closure-cover:' + ','.join('%s*%s' % p for p in missing),
+                         'the inner closure loop has no step joining %s (steps found: %s): compositions of pairs found in different rounds '
+                         'are never formed, the delta (and later the total) misses closure pairs' % (
+                             ' / '.join('(%s,%s)' % p for p in missing), sorted(have)), loc=cr.loc(lp))
+            if not seeded:
+                rep.viol('L21', path, 'closure-frontier-not-seeded', 'the frontier of the inner closure loop is not initialised from the new rows', loc=cr.loc(lp))
+    return n_loops
+
+
+# ------------------------------------------------------------------ L20
+
+_DISCARD_MUT = {'push', 'insert', 'push_back', 'extend', 'append', 'remove', 'clear', 'insert_unique_unchecked'}
+
+
+def _tail_leaves(n):
+    n = strip(n)
+    k = n.get('k')
+    if k == 'block':
+        if 'e' in n:
+            return _tail_leaves(n['e'])
+        return []
+    if k == 'if':
+        return _tail_leaves(n['th']) + (_tail_leaves(n['el']) if 'el' in n else [])
+    if k == 'match':
+        out = []
+        for a in n['arms']:
+            out += _tail_leaves(a['b'])
+        return out
+    if k == 'ret':
+        return _tail_leaves(n['e']) if 'e' in n else []
+    return [n]
+
+
+def check_L20(ctx, rep, modules):
+    """change-flag fidelity of the insert/add functions of the provider data structures (`&mut self -> bool`): the generated code
+    sets `__changed` - and so keeps a looping stratum alive - only when the insertion reports `true`. A path that has already changed
+    the structure through an operation whose own result is discarded (push / insert as a statement / mem::take / assignment) must
+    therefore return `true`: not `false`, and not the result of a further call, which reports only what that call changed."""
+    cr = ctx.lib('ascent_byods_rels')
+    n_fn = 0
+    for path, b in sorted(cr.bodies.items()):
+        if not any(path.startswith(m + '::') for m in modules) or not b['params']:
+            continue
+        if b.get('ret') is None or cr.s(b['ret']) != 'bool':
+            continue
+        p0 = b['params'][0]
+        if p0.get('k') != 'bind' or not (cr.s(p0.get('t')) or '').startswith('&mut'):
+            continue
+        if not (b['name'].startswith('add') or b['name'].startswith('insert')):
+            continue
+        self_id = p0['id']
+        n_fn += 1
+        rep.functions.add(path)
+        muts = []
+        for n, parents in walk(b['tree']):
+            if any(p.get('k') == 'closure' for p in parents):
+                continue
+            par = parents[-1] if parents else {}
+            stmt_pos = par.get('k') in ('semi',) or (par.get('k') == 'expr')
+            is_mut = False
+            if n.get('k') == 'mcall' and n['m'] in _DISCARD_MUT and stmt_pos:
+                r = chain_root(n['r'])
+                is_mut = r is not None and r['id'] == self_id
+            if n.get('k') == 'assign':
+                r = chain_root(n['l'])
+                is_mut = r is not None and r['id'] == self_id
+            if n.get('k') == 'call' and cname(callee(n) or {}).endswith('mem::take') if n.get('k') == 'call' else False:
+                r = chain_root(n['a'][0])
+                is_mut = r is not None and r['id'] == self_id
+            if is_mut:
+                muts.append((n, parents))
+        bad = []
+        for m, parents in muts:
+            # the value of the function on paths through m: walk outwards; at each enclosing block the statements after the one
+            # containing m run next; the first enclosing construct in tail position decides
+            leaves = []
+            chain = list(parents) + [m]
+            decided = False
+            for i in range(len(chain) - 1, -1, -1):
+                node = chain[i]
+                if node.get('k') == 'block':
+                    inner = chain[i + 1] if i + 1 < len(chain) else None
+                    stmts = node['ss']
+                    idx = None
+                    for j, s_ in enumerate(stmts):
+                        if s_ is inner:
+                            idx = j
+                    if idx is not None:
+                        for s_ in stmts[idx + 1:]:
+                            for x, _ in walk(s_):
+                                if x.get('k') == 'ret' and 'e' in x:
+                                    leaves += _tail_leaves(x['e'])
+                        if 'e' in node:
+                            leaves += _tail_leaves(node['e'])
+                            decided = True
+                            break
+                    # inner is the tail expression of this block: its own value flows outwards, continue
+                if node.get('k') == 'closure':
+                    break
+            if not decided:
+                continue
+            for lf in leaves:
+                lb = lit_bool(lf)
+                kind = None
+                if lb is False:
+                    kind = 'returns-false-after-mutation'
+                elif lf.get('k') in ('mcall', 'call') and lb is None:
+                    c = callee(lf)
+                    nm = cname(c) if c else lf.get('m', '?')
+                    kind = 'returns-delegated-result-after-mutation:' + nm.split('::')[-1]
+                if kind:
+                    bad.append((kind, m, lf))
+        rep.inst('L20', '%s: %d result-discarding mutations of self, each followed only by `true` (or a computed flag): %s' % (path, len(muts), not bad))
+        seen = set()
+        for kind, m, lf in bad:
+            if kind in seen:
+                continue
+            seen.add(kind)
+            rep.viol('L20', path, kind, 'after `%s` has changed the structure the function can still report "nothing changed" (%s): the generated '
+                     'code then does not set `__changed`, a looping stratum stops and the row never reaches the total' % (
+                         (m.get('snip') or '')[:60].replace('\n', ' '), (lf.get('snip') or '')[:60].replace('\n', ' ')), loc=cr.loc(m))
+    return n_fn
+
+
+# ------------------------------------------------------------------ L23
+
+def _lit_int(n):
+    n = strip(n)
+    while n.get('k') in ('cast',):
+        n = strip(n['e'])
+    if n.get('k') == 'lit':
+        v = str(n.get('v', n.get('snip', '')))
+        digits = ''.join(ch for ch in v.split('_')[0] if ch.isdigit())
+        try:
+            return int(digits) if digits else None
+        except ValueError:
+            return None
+    return None
+
+
+def check_L23(ctx, rep, modules):
+    """size estimates are total functions: the generated join code calls `len_estimate` on every version of a relation, also on
+    an empty one (first iteration, relation without facts). An integer division in such a function must have a divisor that is
+    non-zero by construction: a non-zero literal (possibly through an immutable local) or `<expr>.max(k)` with k >= 1 - the idiom
+    every estimate of the crate uses."""
+    cr = ctx.lib('ascent_byods_rels')
+    n_div = 0
+    for path, b in sorted(cr.bodies.items()):
+        if not ('len_estimate' in b['name'] or 'count_estimate' in b['name']):
+            continue
+        if not any((('<' + m + '::') in path) or path.startswith(m + '::') for m in modules):
+            continue
+        lits = {}
+        for n, parents in walk(b['tree']):
+            if n.get('k') == 'let' and 'i' in n and n['p'].get('k') == 'bind' and not n['p'].get('mut'):
+                v = _lit_int(n['i'])
+                if v is not None:
+                    lits[n['p']['id']] = v
+        for n, parents in walk(b['tree']):
+            if n.get('k') not in ('binary', 'assignop') or n.get('op') not in ('/', '%'):
+                continue
+            ty = cr.ty(n) or ''
+            if ty in ('f32', 'f64'):
+                continue
+            n_div += 1
+            d = strip(n['r'])
+            while d.get('k') == 'cast' or (d.get('k') == 'block' and not d['ss'] and 'e' in d):
+                d = strip(d['e'])
+            ok = False
+            v = _lit_int(d)
+            if v is not None and v != 0:
+                ok = True
+            elif d.get('k') == 'path' and d.get('res') == 'local' and lits.get(d['id'], 0) != 0:
+                ok = True
+            elif d.get('k') == 'mcall' and d['m'] == 'max' and d['a']:
+                a = strip(d['a'][0])
+                av = _lit_int(a)
+                if av is None and a.get('k') == 'path' and a.get('res') == 'local':
+                    av = lits.get(a['id'])
+                ok = av is not None and av >= 1
+            rep.inst('L23', '%s: divisor `%s` is non-zero by construction: %s' % (path, (d.get('snip') or '')[:50].replace('\n', ' '), ok))
+            rep.functions.add(path)
+            if not ok:
+                rep.viol('L23', path, 'division-by-possibly-zero', 'the size estimate divides by `%s`, which is 0 for an empty relation: the generated join '
+                         'order test panics ("attempt to divide by zero") before any tuple is read' % (d.get('snip') or '')[:60].replace('\n', ' '), loc=cr.loc(n))
+    return n_div
